@@ -439,6 +439,12 @@ func chunkSizes(kind string, n int, rng *rand.Rand, cf []concFrame) []int {
 func RunReader(p *RProg) (evs []Ev) {
 	r := &readerRun{p: p, role: p.Role}
 	stream := r.concretise()
+	return r.run(stream)
+}
+
+// run executes the read program over an already concretised stream (r.cf, r.expect set).
+func (r *readerRun) run(stream []byte) (evs []Ev) {
+	p := r.p
 	rng := rand.New(rand.NewSource(int64(p.Seed) + 7))
 
 	// cut
